@@ -87,6 +87,65 @@ theorem funcNamesOut_sound (l : List (Nat × String)) (fm : List (Nat × Nat)) (
       subst hi
       exact ⟨i, h1, h2⟩
 
+theorem mem_distinctIds_aux (l acc : List Nat) (x : Nat) :
+    x ∈ l.foldl (fun acc x => if acc.contains x then acc else acc ++ [x]) acc ↔ x ∈ acc ∨ x ∈ l := by
+  induction l generalizing acc with
+  | nil => simp
+  | cons a r ih =>
+    simp only [List.foldl_cons, ih, List.mem_cons]
+    by_cases h : acc.contains a
+    · simp only [h, if_true]
+      have ha : a ∈ acc := by simpa using h
+      constructor
+      · rintro (h1 | h1)
+        · exact Or.inl h1
+        · exact Or.inr (Or.inr h1)
+      · rintro (h1 | h1 | h1)
+        · exact Or.inl h1
+        · subst h1; exact Or.inl ha
+        · exact Or.inr h1
+    · simp only [h, if_false, List.mem_append, List.mem_singleton, Bool.false_eq_true]
+      constructor
+      · rintro ((h1 | h1) | h1)
+        · exact Or.inl h1
+        · exact Or.inr (Or.inl h1)
+        · exact Or.inr (Or.inr h1)
+      · rintro (h1 | h1 | h1)
+        · exact Or.inl (Or.inl h1)
+        · exact Or.inl (Or.inr h1)
+        · exact Or.inr h1
+
+theorem mem_distinctIds (l : List Nat) (x : Nat) : x ∈ distinctIds l ↔ x ∈ l := by
+  unfold distinctIds
+  rw [mem_distinctIds_aux]
+  simp
+
+theorem lastName_some_mem (l : List (Nat × String)) (i : Nat) (s : String) (h : lastName l i = some s) :
+    (i, s) ∈ l := by
+  simp only [lastName, Option.map_eq_some_iff] at h
+  obtain ⟨p, hp, rfl⟩ := h
+  have := List.mem_of_find?_eq_some hp
+  have hi : p.1 = i := by simpa using List.find?_some hp
+  rw [← hi]
+  exact List.mem_reverse.1 this
+
+/-- **no name is lost** in the index spaces that keep their indices: every index the input names
+    carries its (last) name in the output -/
+theorem keepNames_complete (l : List (Nat × String)) (i : Nat) (s : String) (h : lastName l i = some s) :
+    (i, s) ∈ keepNames l := by
+  simp only [keepNames, sortNames, mem_sortBy, List.mem_filterMap, Option.map_eq_some_iff]
+  refine ⟨i, ?_, s, h, rfl⟩
+  rw [mem_distinctIds]
+  exact List.mem_map.2 ⟨(i, s), lastName_some_mem l i s h, rfl⟩
+
+/-- function names: every named input function that has an output index keeps its name there -/
+theorem funcNamesOut_complete (l : List (Nat × String)) (fm : List (Nat × Nat)) (i j : Nat) (s : String)
+    (h : lastName l i = some s) (hj : assoc fm i = some j) : (j, s) ∈ funcNamesOut l fm := by
+  simp only [funcNamesOut, sortNames, mem_sortBy, List.mem_filterMap]
+  refine ⟨i, ?_, by simp [h, hj]⟩
+  rw [mem_distinctIds]
+  exact List.mem_map.2 ⟨(i, s), lastName_some_mem l i s h, rfl⟩
+
 theorem rtElem_flag (fm : List (Nat × Nat)) (maps : IdMaps) (e e' : ElemM) (h : rtElem fm maps e = some e') :
     (match e.mode, e.items with
      | .active t _, .funcs _ => t.getD 0 = 0 → e'.flag = 0
